@@ -7,9 +7,23 @@ from datetime import datetime, timezone, timedelta
 from .common import Driver, hx, unhx, hn, unhn, outcome, load_repo
 from . import keys as keypool
 
-DK_TEXT = 'C20/text-format-read-back-latin1'
-DK_TIME = 'C20/literal-time-after-2106-five-octets'
-DK_MDC = 'C20/decrypted-message-exports-mdc-packet'
+# witnesses of repaired defects (known_findings.json kind=fixed): run first in every tier, any recurrence is a plain violation
+REGRESSION = [
+    ('C20/text-format-read-back-latin1 (b404cfc)',
+     {'content': {'kind': 'str', 'text': u'caf\u00e9', 'cls': 'utf8-str'}, 'format': 't', 'encoding': None, 'filename': '', 'mtime': 0, 'comp': 0,
+      'signers': [], 'armor': False}),
+    ('C20/literal-time-after-2106-five-octets (58e1aa9)', {'op': 'time', 'mtime': 4294967296}),
+    ('C20/decrypted-message-exports-mdc-packet (8a513cb)',
+     {'op': 'decrypted', 'content': {'kind': 'bytes', 'hex': '616263', 'cls': 'ascii'}, 'format': None, 'encoding': None, 'filename': '',
+      'mtime': 1577934245, 'comp': 0, 'signers': [{'key': 'ed25519', 'hash': 'SHA256', 'dt': 0}], 'armor': False}),
+    ('F3 one-pass flags (8479dfb)',
+     {'content': {'kind': 'bytes', 'hex': '616263', 'cls': 'ascii'}, 'format': 'b', 'encoding': None, 'filename': '', 'mtime': 1577934245, 'comp': 0,
+      'signers': [{'key': 'ed25519', 'hash': 'SHA256', 'dt': 0}, {'key': 'rsa2048', 'hash': 'SHA512', 'dt': 1}, {'key': 'p256', 'hash': 'SHA256', 'dt': 2}],
+      'armor': False}),
+    ('F11 latin-1 file name (fe6a378)',
+     {'content': {'kind': 'bytes', 'hex': '616263', 'cls': 'ascii'}, 'format': 'b', 'encoding': None, 'filename': u'caf\u00e9.txt', 'mtime': 1577934245,
+      'comp': 0, 'signers': [], 'armor': True}),
+]
 
 PIN_ITER = ("    def __iter__(self):\n        if self.type == 'cleartext':\n            for sig in self._signatures:\n                yield sig\n\n"
             "        elif self.is_encrypted:\n            for sig in self._signatures:\n                yield sig\n            for pkt in self._sessionkeys:\n"
@@ -225,7 +239,7 @@ def check_export(ctx, pgpy, d, K, case, tmp, suite='export'):
     fmt, want_back, stored = expected_read_back(case)
     name = '_CONSOLE' if case.get('sensitive') else case['filename']
     ob = outcome(lambda: bytes(m))
-    refuse = len(name) > 255 or any(ord(ch) > 255 for ch in name) or case['mtime'] < 0
+    refuse = len(name) > 255 or any(ord(ch) > 255 for ch in name) or case['mtime'] < 0 or case['mtime'] >= 2**32
     if refuse:
         ctx.case(suite + '-refusal', (name, case['mtime']), nontrivial=False, sample={'name': name[:20], 'mtime': case['mtime'], 'impl': repr(ob)[:80]})
         if ob[0] == 'ok':
@@ -280,9 +294,7 @@ def check_export(ctx, pgpy, d, K, case, tmp, suite='export'):
             ctx.fail(suite, 'import(export) lost: ' + ', '.join(probs), dict(_small(case), how=how))
         rb = outcome(read_back, m2)
         if rb != ('ok', want_back):
-            nonascii_t = fmt == 't' and any(b > 127 for b in stored)
-            ctx.fail(suite + '-content', 'content read back differs', dict(_small(case), how=how, got=repr(rb)[:120], want=repr(want_back)[:120]),
-                     DK_TEXT if nonascii_t else None)
+            ctx.fail(suite + '-content', 'content read back differs', dict(_small(case), how=how, got=repr(rb)[:120], want=repr(want_back)[:120]))
         elif isinstance(content_of(case), (bytes, bytearray)) and want_back[0] == 'text':
             # octet-for-octet under the message's character encoding
             if rb[1][1].encode(case.get('encoding') or 'utf-8') != content_of(case):
@@ -297,9 +309,35 @@ def check_export(ctx, pgpy, d, K, case, tmp, suite='export'):
     # model view of the content (contents property)
     mv = d.call('contents', hn(ord(fmt)), hx(stored))
     rbm = read_back(m)
-    iv = ('T ' + cps(rbm[1])) if (rbm[0] == 'text' and fmt == 't') else ('U ' + hx(rbm[1].encode('utf-8'))) if rbm[0] == 'text' else ('B ' + hx(rbm[1]))
+    iv = ('T ' + cps(rbm[1])) if rbm[0] == 'text' else ('B ' + hx(rbm[1]))
     ctx.expect_eq(suite, 'message view differs from model', _small(case), iv, mv)
     return blob
+
+
+def time_case(ctx, pgpy, case):
+    """literal time that needs five octets; returns True if the implementation fails (exports instead of refusing)"""
+    from pgpy.constants import CompressionAlgorithm as CA
+    m = pgpy.PGPMessage.new(b'abc', compression=CA.Uncompressed, format='b')
+    m._message.mtime = datetime.fromtimestamp(case['mtime'], timezone.utc)
+    outcome(m._message.update_hlen)
+    o = outcome(lambda: bytes(m))
+    ctx.case('time-overflow', case['mtime'], nontrivial=False, sample={'mtime': case['mtime'], 'impl': repr(o)[:80]})
+    if o[0] == 'ok':
+        ctx.fail('time-overflow', 'literal time beyond 2106-02-07 is exported (five-octet time field) instead of refused', case)
+        return True
+    return False
+
+
+def decrypted_case(ctx, pgpy, d, K, case, tmp):
+    """sign, encrypt, import, decrypt: the decrypted message must export exactly the message that was encrypted"""
+    c2 = {k: v for k, v in case.items() if k not in ('op', 'after', 'twice', 'cipher')}
+    m, added = build_impl(pgpy, K, c2, tmp)
+    dec = pgpy.PGPMessage.from_blob(bytes(m.encrypt('pw'))).decrypt('pw')
+    ctx.case('encrypt-decrypted', ('witness', repr(c2['content'])[:60]), sample={'case': _small(c2)})
+    bad = dec._mdc is not None or bytes(dec) != bytes(m) or d.call('grammar', FUEL, hx(bytes(dec))) != '1'
+    if bad:
+        ctx.fail('encrypt-decrypted', 'export of a decrypted message is not the message that was encrypted', dict(_small(c2), op='decrypted'))
+    return bad
 
 
 def _small(case):
@@ -374,6 +412,18 @@ def _run(ctx, pgpy, d, tmp):
     K = Keys(ctx)
     fast = [n for n in K.names if n in ('rsa2048', 'ed25519', 'p256', 'ed25519b', 'secp256k1', 'p384')]
 
+    # ---- 0b. regression corpus: witnesses of the repaired defects
+    for label, case in REGRESSION:
+        before = len(ctx.violations)
+        if case.get('op') == 'time':
+            time_case(ctx, pgpy, case)
+        elif case.get('op') == 'decrypted':
+            decrypted_case(ctx, pgpy, d, K, case, tmp)
+        else:
+            check_export(ctx, pgpy, d, K, dict(case), tmp, suite='regression')
+        if len(ctx.violations) > before:
+            ctx.notes.append('regression witness fails again: ' + label)
+
     # ---- 1. export / import sweep
     classes = ['empty', 'empty-str', 'ascii', 'ascii-str', 'utf8-str', 'utf8-bytes', 'charset:latin-1', 'charset:cp1251', 'charset:shift_jis',
                'charset:koi8-r', 'binary', 'all-octets']
@@ -431,18 +481,11 @@ def _run(ctx, pgpy, d, tmp):
     for nm, mt in (('x' * 256, 5), (u'€.txt', 5), (u'snow☃', 5), ('ok', -1), ('z' * 300, 0)):
         check_export(ctx, pgpy, d, K, {'content': gen_content(rng, 'ascii', 0), 'format': 'b', 'encoding': None, 'filename': nm, 'mtime': mt,
                                        'comp': 0, 'signers': [], 'armor': False}, tmp, suite='refusal')
-    # a time that does not fit four octets: refusal is fine, a five-octet field is corruption
-    for mt in (2**32, 2**32 + 12345):
-        m = pgpy.PGPMessage.new(b'abc', compression=CA.Uncompressed, format='b')
-        m._message.mtime = datetime.fromtimestamp(mt, timezone.utc)
-        outcome(m._message.update_hlen)   # a repaired LiteralData refuses here already
-        o = outcome(lambda: bytes(m))
-        case = {'op': 'time', 'mtime': mt}
-        ctx.case('time-overflow', mt, nontrivial=False, sample={'mtime': mt, 'impl': repr(o)[:80]})
-        if o[0] == 'ok':
-            o2 = outcome(pgpy.PGPMessage.from_blob, o[1])
-            if o2[0] != 'ok' or bytes(o2[1]._message._contents) != b'abc' or ts(o2[1]._message.mtime) != mt:
-                ctx.fail('time-overflow', 'literal time beyond 2106-02-07 is emitted as five octets; re-import shifts the content', case, DK_TIME)
+    # a time that does not fit four octets must be refused (a five-octet field shifts the content on re-import)
+    for mt in (2**32, 2**32 + 12345, 2**33):
+        time_case(ctx, pgpy, {'op': 'time', 'mtime': mt})
+        check_export(ctx, pgpy, d, K, {'content': gen_content(rng, 'ascii', 0), 'format': 'b', 'encoding': None, 'filename': 'late', 'mtime': mt,
+                                       'comp': 0, 'signers': [], 'armor': False}, tmp, suite='refusal')
 
     # ---- 3. literal / one-pass body codecs against PGPy's packet classes and the RFC decoders
     trailing = b'\xaa\xbb\xcc'
@@ -523,6 +566,33 @@ def _run(ctx, pgpy, d, tmp):
                                     rng.randrange(0x10000, 0x110000)])) for _ in range(rng.randrange(1, 12)))
         ctx.case('utf8', t, sample={'text': cps(t)})
         ctx.expect_eq('utf8', 'text_to_bytes differs from model utf8', {'op': 'utf8', 'text': cps(t)}, hx(t.encode('utf-8')), d.call('utf8', cps(t)))
+
+    # LiteralData.contents and strict UTF-8 decoding on arbitrary octets (text of other producers included)
+    def mutate_utf8():
+        base = bytearray(''.join(chr(rng.choice([rng.randrange(128), rng.randrange(128, 2048), rng.randrange(0x800, 0xd800), rng.randrange(0xe000, 0x10000),
+                                                 rng.randrange(0x10000, 0x110000)])) for _ in range(rng.randrange(0, 8))).encode('utf-8'))
+        r = rng.random()
+        if r < 0.35 and base:
+            base[rng.randrange(len(base))] = rng.choice([0x80, 0xbf, 0xc0, 0xc1, 0xc2, 0xe0, 0xed, 0xf0, 0xf4, 0xf5, 0xff, rng.randrange(256)])
+        elif r < 0.5 and base:
+            del base[rng.randrange(len(base))]
+        elif r < 0.65:
+            base += bytes(rng.choice([[0xed, 0xa0, 0x80], [0xed, 0x9f, 0xbf], [0xe0, 0x9f, 0xbf], [0xe0, 0xa0, 0x80], [0xf0, 0x8f, 0xbf, 0xbf], [0xf0, 0x90, 0x80, 0x80],
+                                      [0xf4, 0x8f, 0xbf, 0xbf], [0xf4, 0x90, 0x80, 0x80], [0xc1, 0xbf], [0xc2, 0x80], [0xef, 0xbf, 0xbf], [0xe9], [0xc3]]))
+        return bytes(base)
+    for _ in range(ctx.n(400, 6000)):
+        data = mutate_utf8() if rng.random() < 0.8 else bytes(rng.randrange(256) for _ in range(rng.randrange(0, 10)))
+        o = outcome(lambda: data.decode('utf-8'))
+        case = {'op': 'contents', 'data': data.hex()}
+        ctx.case('contents-codec', data, nontrivial=(o[0] == 'ok'), sample=dict(case, utf8=o[0]))
+        ctx.expect_eq('contents-codec', 'strict UTF-8 decoding differs from model utf8_decode', case, cps(o[1]) if o[0] == 'ok' else 'ERR', d.call('utf8dec', hx(data)))
+        for fch in 'tub':
+            lit = LiteralData(); lit.format = fch; lit._contents = bytearray(data)
+            oc = outcome(lambda: lit.contents)
+            iv = 'ERR' if oc[0] != 'ok' else ('T ' + cps(oc[1])) if isinstance(oc[1], str) else ('B ' + hx(bytes(oc[1])))
+            ctx.expect_eq('contents-codec', 'LiteralData.contents differs from model', dict(case, format=fch), iv, d.call('contents', hn(ord(fch)), hx(data)))
+            if fch == 't' and oc[0] != 'ok':
+                ctx.fail('contents-codec', 'text literal of another producer is unreadable', dict(case, format=fch))
 
     # ---- 3b. the premise of the byte-level theorems, on the implementation's primitive: decompress(compress x) = x,
     #          and the oracle the model is run with is the same function
@@ -653,7 +723,7 @@ def run_encrypt(ctx, pgpy, d, K, fast, tmp):
         st_dec, st_ref = state_of(dec).split(' '), state_of(ref).split(' ')
         if st_dec[:2] + st_dec[3:] != st_ref[:2] + st_ref[3:]:
             ctx.fail('encrypt', 'content / metadata / signatures lost through encryption', cd)
-        if read_back(dec) != want_back and not (fmt == 't' and any(b > 127 for b in stored)):
+        if read_back(dec) != want_back:
             ctx.fail('encrypt', 'content lost through encryption', cd)
         # the plaintext the container held, parsed and re-exported by the model = what PGPy does with it
         symalg, skey = [sk for sk in e2._sessionkeys][-1].decrypt_sk('pw%d' % i)
@@ -661,9 +731,9 @@ def run_encrypt(ctx, pgpy, d, K, fast, tmp):
         ctx.expect_eq('encrypt', 'state of decrypted message differs from model', cd, state_of(dec), d.call('import', FUEL, hx(pt)))
         ctx.expect_eq('encrypt', 'export of decrypted message differs from model', cd, hx(bytes(dec)), d.call('reexport', FUEL, hx(pt)))
         g = d.call('grammar', FUEL, hx(bytes(dec)))
-        if bytes(dec) != plain or g != '1':
-            ctx.fail('encrypt-decrypted', 'export of a decrypted message is not the message that was encrypted (outside the grammar: %s)' % (g != '1'),
-                     dict(cd, op='decrypted'), DK_MDC if dec._mdc is not None else None)
+        if dec._mdc is not None or pt != plain or bytes(dec) != plain or g != '1':
+            ctx.fail('encrypt-decrypted', 'export of a decrypted message is not the message that was encrypted (in grammar: %s, stray MDC: %s)'
+                     % (g == '1', dec._mdc is not None), dict(_small(case), op='decrypted'))
     # one public-key recipient (shape only)
     try:
         pub = K.k['rsa2048'].pubkey
@@ -818,19 +888,16 @@ def replay(ctx, case):
         before = len(ctx.violations) + len(ctx.known_hit)
         op = case.get('op')
         if op == 'time':
-            from pgpy.constants import CompressionAlgorithm as CA
-            m = pgpy.PGPMessage.new(b'abc', compression=CA.Uncompressed, format='b')
-            m._message.mtime = datetime.fromtimestamp(case['mtime'], timezone.utc)
-            outcome(m._message.update_hlen)
-            o = outcome(lambda: bytes(m))
-            if o[0] != 'ok': return False
-            o2 = outcome(pgpy.PGPMessage.from_blob, o[1])
-            return o2[0] != 'ok' or bytes(o2[1]._message._contents) != b'abc'
+            return time_case(ctx, pgpy, case)
         if op == 'decrypted':
-            c2 = {k: v for k, v in case.items() if k not in ('op', 'after', 'twice', 'cipher')}
-            m, added = build_impl(pgpy, K, c2, tmp)
-            dec = pgpy.PGPMessage.from_blob(bytes(m.encrypt('pw'))).decrypt('pw')
-            return bytes(dec) != bytes(m) or d.call('grammar', FUEL, hx(bytes(dec))) != '1'
+            return decrypted_case(ctx, pgpy, d, K, case, tmp)
+        if op == 'contents':
+            data = bytes.fromhex(case['data'])
+            from pgpy.packet.packets import LiteralData
+            lit = LiteralData(); lit.format = case.get('format', 't'); lit._contents = bytearray(data)
+            oc = outcome(lambda: lit.contents)
+            iv = 'ERR' if oc[0] != 'ok' else ('T ' + cps(oc[1])) if isinstance(oc[1], str) else ('B ' + hx(bytes(oc[1])))
+            return iv != d.call('contents', hn(ord(lit.format)), hx(data))
         if op in ('sequence', 'foreign') and case.get('data'):
             data = bytes.fromhex(case['data'])
             o = outcome(pgpy.PGPMessage.from_blob, data)
